@@ -47,6 +47,7 @@ type c09Result struct {
 	MutAccepted      int64          `json:"mutated_accepted_without_error"`
 	MutRejected      int64          `json:"mutated_rejected"`
 	MaxAllocRatio    float64        `json:"max_alloc_bytes_per_input_byte"`
+	DirectedValid    int            `json:"directed_valid_records_decoded"`
 	MaxDecodeMS      float64        `json:"max_decode_ms"`
 	Distinct         []string       `json:"distinct"`
 	Samples          []interface{}  `json:"samples"`
@@ -381,6 +382,35 @@ func c09Child(args []string) {
 		}
 	}
 	idx := int64(0)
+	// directed valid records at the edges of the format: bodies that inflate to hundreds of times the
+	// record size, and a header set of tens of kilobytes. They round-trip, and decoding them is measured
+	// like every other decode (a decoder must not do work in proportion to the inflated size).
+	bigHdr := c09Spec{State: "hit", Status: 200, RawLen: 100, Kind: "text", Variants: 1, TTL: 60, CreatedAt: 1700000000}
+	for i := 0; i < 150; i++ {
+		bigHdr.Header = append(bigHdr.Header, [2]string{fmt.Sprintf("X-Big-%d", i%40), strings.Repeat("policy-value ", 30) + fmt.Sprint(i)})
+	}
+	for di, s := range []c09Spec{
+		{State: "hit", Status: 200, RawLen: 8 << 20, Kind: "zero", Variants: 2, TTL: 60, CreatedAt: 1700000000, Header: [][2]string{{"Content-Type", "text/plain"}}},
+		{State: "hit", Status: 200, RawLen: 8 << 20, Kind: "zero", Variants: 4, TTL: 60, CreatedAt: 1700000000, Header: [][2]string{{"Content-Type", "text/plain"}}},
+		{State: "hit", Status: 200, RawLen: 4 << 20, Kind: "runs", Variants: 6, TTL: 60, CreatedAt: 1700000000, Header: [][2]string{{"Content-Type", "application/json"}}},
+		bigHdr,
+	} {
+		c09RoundTrip(res, s, int64(900000+di), clock)
+		clock.Set(s.CreatedAt)
+		hc := cache.NewHTTPCache()
+		hc.Get()
+		hc.Cacheable(c09BuildResp(s, int64(900000+di)), s.TTL)
+		d, err := hc.Bytes()
+		if err != nil {
+			continue
+		}
+		idx++
+		res.DirectedValid++
+		if err := c09Decode(res, d, "valid_directed", pf, idx, false); err != nil {
+			res.add(c09Viol{Kind: "roundtrip_decode_failed", Params: map[string]string{"level": "entry", "class": "directed_valid_record"}, Text: fmt.Sprintf("a record pike produced itself (%d bytes, %d header lines, raw body %d bytes) is rejected by its decoder: %v", len(d), len(s.Header), s.RawLen, err), Case: map[string]interface{}{"state": s.State, "raw_len": s.RawLen, "kind": s.Kind, "variants": s.Variants, "header_lines": len(s.Header)}})
+		}
+	}
+	res.MutAccepted, res.MutRejected = 0, 0
 	// truncation at every offset (sampled for long records)
 	for vi, v := range valid {
 		for cut := 0; cut < len(v); cut++ {
@@ -513,7 +543,7 @@ func c09ConcurrentDecode(res *c09Result, rnd *rand.Rand, clock *hx.Clock) {
 }
 
 func c09(r *hx.Run) {
-	r.Rule = "child process per batch. Structured entries (state hit/hit-for-pass/fresh, 0-200 header lines incl. multi-valued, empty, UTF-8, quotes, tabs and (rarely) non-UTF-8 bytes, every subset of raw/gzip/br variants, bodies 0..2 MiB, profile names, min lengths, filters, clock values 0..2^40 and negative, lifetimes up to 2^31-1): Bytes -> FromBytes must give identical re-encoded bytes and identical Get/Age/Fill (6 Accept-Encoding values) at +0,+1,+T,+T+1 s. Byte level on 200 valid records: truncation at every offset must error; bit flips, length-field edits (0, +-1, 2^31, 2^32-1..), splices, random strings, crafted filter fields: no panic, no hang (20 s), allocation <= 32x input + 1 MiB (runtime.MemStats.TotalAlloc delta). Non-trivial/distinct = distinct entry shape / mutation class."
+	r.Rule = "child process per batch. Structured entries (state hit/hit-for-pass/fresh, 0-200 header lines incl. multi-valued, empty, UTF-8, quotes, tabs and (rarely) non-UTF-8 bytes, every subset of raw/gzip/br variants, bodies 0..2 MiB, profile names, min lengths, filters, clock values 0..2^40 and negative, lifetimes up to 2^31-1): Bytes -> FromBytes must give identical re-encoded bytes and identical Get/Age/Fill (6 Accept-Encoding values) at +0,+1,+T,+T+1 s. Directed valid records (8 MiB bodies compressed 200x and more, a 60 kB header set) must round-trip and decode within the allocation bound. Byte level on 200 valid records: truncation at every offset must error; bit flips, length-field edits (0, +-1, 2^31, 2^32-1..), splices, random strings, crafted filter fields: no panic, no hang (20 s), allocation <= 32x input + 1 MiB (runtime.MemStats.TotalAlloc delta). Non-trivial/distinct = distinct entry shape / mutation class."
 	r.Assume = []string{"a truncated bare HTTPResponse record is not judged (the persisted record of the statement is the entry)", "allocation is measured with 2 OS threads and includes the harness goroutine's own allocations (small constant)"}
 	exe, _ := os.Executable()
 	batches := r.Pick(1, 8)
@@ -556,6 +586,7 @@ func c09(r *hx.Run) {
 		r.Add("reencoded_bytes_differ_info", res.ReencodedDiffer)
 		total.RespRoundTrips += res.RespRoundTrips
 		total.Prefixes += res.Prefixes
+		total.DirectedValid += res.DirectedValid
 		total.PrefixesRejected += res.PrefixesRejected
 		total.MutAccepted += res.MutAccepted
 		total.MutRejected += res.MutRejected
@@ -584,6 +615,7 @@ func c09(r *hx.Run) {
 	r.Add("prefixes_checked", total.Prefixes)
 	r.Add("prefixes_rejected", total.PrefixesRejected)
 	r.Add("mutated_accepted_without_error", total.MutAccepted)
+	r.Add("directed_valid_records_decoded(8MiB_bodies,60kB_headers)", int64(total.DirectedValid))
 	r.Add("mutated_rejected", total.MutRejected)
 	r.Set("mutated_inputs_by_kind", total.Mutated)
 	r.Set("max_alloc_bytes_per_input_byte", total.MaxAllocRatio)
